@@ -262,33 +262,83 @@ def encode_case(case):
     return bytes(out)
 
 
-def _run_proc(cmd, batch_path, timeout, env=None):
-    """Run one runner process over a batch file. Returns (results, begun_unfinished_id, status)
-    where status is 'ok', 'timeout', or ('exit', code, stderr_tail)."""
-    try:
-        p = subprocess.run(cmd + [batch_path], stdout=subprocess.PIPE, stderr=subprocess.PIPE,
-                           timeout=timeout, env=env)
-        stdout, stderr, code, timed_out = p.stdout, p.stderr, p.returncode, False
-    except subprocess.TimeoutExpired as e:
-        stdout, stderr, code, timed_out = e.stdout or b"", e.stderr or b"", None, True
+CASE_TIMEOUT = float(os.environ.get("VERIF_CASE_TIMEOUT", "30"))
+
+
+def _run_proc(cmd, batch_path, timeout, env=None, case_timeout=None):
+    """Run one runner process over a batch file, watching its output: the process is killed when
+    the whole batch exceeds `timeout` or when one case stays in flight longer than `case_timeout`
+    seconds (a generous multiple of the typical case time of 0.2-50 ms).
+    Returns (results, begun_unfinished_id, status); status is ('ok',), ('timeout',) or
+    ('exit', code, stderr head+tail)."""
+    import selectors
+    case_timeout = case_timeout or CASE_TIMEOUT
+    errf = tempfile.TemporaryFile()
+    p = subprocess.Popen(cmd + [batch_path], stdout=subprocess.PIPE, stderr=errf, env=env)
+    sel = selectors.DefaultSelector()
+    sel.register(p.stdout, selectors.EVENT_READ)
+    os.set_blocking(p.stdout.fileno(), False)
     results = []
     begun = None
     done = False
-    for line in stdout.split(b"\n"):
-        if not line.strip():
-            continue
+    buf = b""
+    t_start = time.time()
+    t_case = time.time()
+    timed_out = False
+    eof = False
+    while not eof:
+        now = time.time()
+        limit = min(t_start + timeout - now, (t_case + case_timeout - now) if begun is not None else 3600)
+        if limit <= 0:
+            timed_out = True
+            p.kill()
+            break
+        ev = sel.select(timeout=min(limit, 1.0))
+        if not ev:
+            if p.poll() is not None:
+                # process ended; drain what is left
+                pass
+            else:
+                continue
         try:
-            d = json.loads(line)
-        except ValueError:
-            continue  # a torn line from a killed process
-        if "begin" in d:
-            begun = d["begin"]
-        elif "done" in d:
-            done = True
-        elif "id" in d:
-            results.append(d)
-            if begun == d["id"]:
-                begun = None
+            chunk = p.stdout.read()
+        except BlockingIOError:
+            chunk = None
+        if chunk == b"" or (chunk is None and p.poll() is not None):
+            eof = True
+        if chunk:
+            buf += chunk
+            while True:
+                k = buf.find(b"\n")
+                if k < 0:
+                    break
+                line = buf[:k]
+                buf = buf[k + 1:]
+                if not line.strip():
+                    continue
+                try:
+                    d = json.loads(line)
+                except ValueError:
+                    continue
+                if "begin" in d:
+                    begun = d["begin"]
+                    t_case = time.time()
+                elif "done" in d:
+                    done = True
+                elif "id" in d:
+                    results.append(d)
+                    if begun == d["id"]:
+                        begun = None
+    sel.close()
+    try:
+        p.wait(timeout=10)
+    except subprocess.TimeoutExpired:
+        p.kill()
+        p.wait()
+    code = p.returncode
+    errf.seek(0)
+    stderr = errf.read()
+    errf.close()
     if timed_out:
         return results, begun, ("timeout",)
     if code != 0 or not done:
@@ -365,6 +415,20 @@ def _parallel(cmd, procs, timeout, env):
     with concurrent.futures.ThreadPoolExecutor(max_workers=max(1, min(len(procs), NCPU))) as ex:
         futs = [ex.submit(_run_proc, cmd, path, timeout, env) for (_, _, path) in procs]
         return [f.result() for f in futs]
+
+
+def batch_timeout(tier, n_cases, per_case=0.5, floor=None):
+    """wall-clock limit for one runner process: a floor far above the typical shard time plus a
+    per-case allowance (the typical case takes 0.2-10 ms)"""
+    if floor is None:
+        floor = 120 if tier == "quick" else 600
+    return floor + per_case * n_cases
+
+
+def confirmed_hang(cfg, case, timeout=60, wrapper=None, env=None):
+    """re-run a case that hit the watchdog alone, twice: True only if it times out both times"""
+    runs = confirm_abort(cfg, case, timeout=timeout, wrapper=wrapper, env=env, tries=2)
+    return all("abort" in r and r["abort"]["why"] == "timeout" for r in runs)
 
 
 def confirm_abort(cfg, case, timeout=120, wrapper=None, env=None, tries=2):
